@@ -4,32 +4,17 @@ use crate::support::*;
 use core::cmp::Ordering;
 pub mod ty {
     #![deny(warnings)]
-    #![allow(dead_code, unused_imports)]
+    #![allow(dead_code, unused_imports, non_snake_case)]
     use crate::support::{A, B, C, Good, Bad, m_eq, m_cmp, m_pcmp, m_hash, m_fmt, m_clone, m_clone_c, m_into, g_eq, g_cmp, g_pcmp, g_hash, g_fmt};
     use educe::Educe;
-
-    // names at the derive site that shadow everything the generated code might be tempted to write unqualified
-    #[allow(non_camel_case_types)] pub struct Option; pub struct Result; pub struct Ordering; pub struct Clone; pub struct Copy;
-    pub struct Default; pub struct Debug; pub struct PartialEq; pub struct Eq; pub struct PartialOrd; pub struct Ord; pub struct Hash;
-    pub struct Hasher; pub struct Into; pub struct From; pub struct Deref; pub struct DerefMut; pub struct Formatter; pub struct String;
-    pub struct Vec; pub struct Box; pub struct PhantomData; pub struct Sized; pub struct Send; pub struct Iterator; pub struct Self_;
-    #[allow(non_snake_case)] pub fn Some() {} #[allow(non_snake_case)] pub fn None() {} #[allow(non_snake_case)] pub fn Ok() {} #[allow(non_snake_case)] pub fn Err() {}
-    pub fn drop() {} pub mod core {} pub mod std {} pub mod alloc {} pub mod fmt {} pub mod cmp {} pub mod hash {} pub mod clone {} pub mod marker {}
-    #[allow(unused_macros)] macro_rules! stringify { ($($t:tt)*) => { "SHADOWED" } }
-    #[allow(unused_macros)] macro_rules! unreachable { ($($t:tt)*) => { () } }
-    #[allow(unused_macros)] macro_rules! panic { ($($t:tt)*) => { () } }
-    #[allow(unused_macros)] macro_rules! matches { ($($t:tt)*) => { true } }
-    #[allow(unused_macros)] macro_rules! write { ($($t:tt)*) => { () } }
-    #[allow(unused_macros)] macro_rules! format_args { ($($t:tt)*) => { () } }
-    #[allow(unused_macros)] macro_rules! assert { ($($t:tt)*) => { () } }
 #[derive(Educe)]
-#[educe(PartialEq, Eq, Ord, PartialOrd)]
-pub struct T { pub f: A<0>, #[educe(Ord(rank = 0x5))] pub b: A<1>, pub builder: A<0>, #[educe(Ord(method = "m_cmp"))] pub data: A<3> }
+#[educe(PartialOrd, Ord, PartialEq, Eq)]
+pub struct T { #[educe(PartialOrd(method = "m_cmp", rank = "1"))] pub _data: A<0>, #[educe(PartialOrd(method(m_cmp)))] pub data: A<1> }
 }
 pub use ty::T;
 
-pub fn values() -> Vec<T> { vec![T { f: A(0), b: A(0), builder: A(7), data: A(0) }, T { f: A(7), b: A(0), builder: A(1), data: A(1) }, T { f: A(1), b: A(1), builder: A(7), data: A(7) }, T { f: A(1), b: A(7), builder: A(7), data: A(7) }, T { f: A(1), b: A(0), builder: A(0), data: A(0) }, T { f: A(1), b: A(0), builder: A(0), data: A(1) }, T { f: A(0), b: A(7), builder: A(0), data: A(7) }, T { f: A(0), b: A(7), builder: A(7), data: A(7) }, T { f: A(0), b: A(0), builder: A(1), data: A(0) }, T { f: A(0), b: A(7), builder: A(7), data: A(1) }, T { f: A(1), b: A(0), builder: A(0), data: A(7) }, T { f: A(1), b: A(7), builder: A(1), data: A(1) }, T { f: A(0), b: A(0), builder: A(7), data: A(1) }, T { f: A(0), b: A(1), builder: A(7), data: A(7) }, T { f: A(1), b: A(1), builder: A(0), data: A(7) }, T { f: A(1), b: A(0), builder: A(1), data: A(0) }, T { f: A(0), b: A(7), builder: A(0), data: A(1) }, T { f: A(1), b: A(1), builder: A(7), data: A(1) }, T { f: A(0), b: A(1), builder: A(0), data: A(7) }, T { f: A(7), b: A(1), builder: A(7), data: A(1) }, T { f: A(7), b: A(1), builder: A(7), data: A(7) }, T { f: A(1), b: A(0), builder: A(7), data: A(1) }, T { f: A(7), b: A(7), builder: A(7), data: A(0) }, T { f: A(0), b: A(7), builder: A(1), data: A(7) }, T { f: A(0), b: A(0), builder: A(1), data: A(7) }, T { f: A(7), b: A(0), builder: A(0), data: A(1) }, T { f: A(0), b: A(0), builder: A(1), data: A(1) }, T { f: A(7), b: A(1), builder: A(1), data: A(0) }, T { f: A(7), b: A(7), builder: A(7), data: A(7) }, T { f: A(1), b: A(1), builder: A(1), data: A(7) }, T { f: A(7), b: A(1), builder: A(1), data: A(1) }, T { f: A(0), b: A(1), builder: A(7), data: A(1) }, T { f: A(0), b: A(7), builder: A(1), data: A(1) }, T { f: A(0), b: A(7), builder: A(1), data: A(0) }, T { f: A(0), b: A(1), builder: A(0), data: A(0) }, T { f: A(7), b: A(1), builder: A(0), data: A(1) }] }
-pub fn show(x: &T) -> String { #[allow(unused_variables)] match x { T { f: p0, b: p1, builder: p2, data: p3 } => format!("T({},{},{},{})", sv(p0), sv(p1), sv(p2), sv(p3)) } }
-pub fn o_disc(x: &T) -> i128 { match x { T { f: _, b: _, builder: _, data: _ } => 0 } }
-pub fn o_cmp(a: &T, b: &T) -> Ordering { match (a, b) { (T { f: a0, b: a1, builder: a2, data: a3 }, T { f: b0, b: b1, builder: b2, data: b3 }) => { let c = ::core::cmp::Ord::cmp(a0, b0); if c != Ordering::Equal { return c; } let c = ::core::cmp::Ord::cmp(a2, b2); if c != Ordering::Equal { return c; } let c = m_cmp(a3, b3); if c != Ordering::Equal { return c; } let c = ::core::cmp::Ord::cmp(a1, b1); if c != Ordering::Equal { return c; } Ordering::Equal } } }
+pub fn values() -> Vec<T> { vec![T { _data: A(0), data: A(0) }, T { _data: A(0), data: A(1) }, T { _data: A(0), data: A(7) }, T { _data: A(1), data: A(0) }, T { _data: A(1), data: A(1) }, T { _data: A(1), data: A(7) }, T { _data: A(7), data: A(0) }, T { _data: A(7), data: A(1) }, T { _data: A(7), data: A(7) }] }
+pub fn show(x: &T) -> String { #[allow(unused_variables)] match x { T { _data: p0, data: p1 } => format!("T({},{})", sv(p0), sv(p1)) } }
+pub fn o_disc(x: &T) -> i128 { match x { T { _data: _, data: _ } => 0 } }
+pub fn o_cmp(a: &T, b: &T) -> Ordering { match (a, b) { (T { _data: a0, data: a1 }, T { _data: b0, data: b1 }) => { let c = m_cmp(a1, b1); if c != Ordering::Equal { return c; } let c = m_cmp(a0, b0); if c != Ordering::Equal { return c; } Ordering::Equal } } }
 pub fn run(out: &mut Out) { let vs = values(); for (i, a) in vs.iter().enumerate() { for (j, b) in vs.iter().enumerate() { let e = o_cmp(a, b); let g = ::core::cmp::Ord::cmp(a, b); out.check(g == e, "ord_7", "cmp", || format!("cmp({}, {}) = {:?} expected {:?}", show(a), show(b), g, e)); let g2 = ::core::cmp::PartialOrd::partial_cmp(a, b); out.check(g2 == Some(e), "ord_7", "partial_is_some_cmp", || format!("partial_cmp({}, {}) = {:?} expected Some({:?})", show(a), show(b), g2, e)); } } }
